@@ -2,7 +2,7 @@
    Statements only; proofs in Proofs/LimitProofs.v.  Models: Model/Limit.v (run validators over the regenerated
    Gen_limit tables).  `closed` is the networkx representation invariant "edge endpoints are nodes". *)
 From stdpp Require Import strings gmap sets.
-From CG Require Import Model.Limit Proofs.LimitProofs Proofs.LimitLint Proofs.LimitTotal Proofs.LimitApi Proofs.LimitApiRegs Proofs.LimitRegsLint.
+From CG Require Import Model.Limit Proofs.LimitProofs Proofs.LimitLint Proofs.LimitTotal Proofs.LimitApi Proofs.LimitApiRegs Proofs.LimitRegsLint Proofs.LimitRegsGen.
 Open Scope string_scope.
 
 (* obligation on the tables regenerated from tx.py: for every multi-input type t, gatemap t is the non-inverting
@@ -78,6 +78,20 @@ Theorem C05_insert_registers_api : ∀ C s order C', closed (c_g C) →
   insert_registers_api default_reg_args C s order = Ok C' → insert_registers C s order = Ok C'.
 Proof. exact insert_registers_api_sound. Qed.
 Print Assumptions C05_insert_registers_api.
+
+(* insert_registers with ANY flop, d_port, q_port, other_flop_io, q_suffix and num_stages (the API-level model that `agree` replays),
+   within the guards `args_ok` (recorded port orders are the flop's port sets, inputs and outputs disjoint, d_port an input, q_port an
+   output, other_flop_io keys are distinct input ports other than d_port) and `values_ok` (its values are nodes of c or its own keys):
+   outputs unchanged, inputs gain at most the other_flop_io keys, and with every inserted flop transparent (v ff.<q> = v ff.<d>) the
+   result has exactly the behaviours of c on the nodes of c *)
+Theorem C05_insert_registers_any_args : ∀ A C s order C', args_ok A → closed (c_g C) → bb_free C → values_ok A (c_g C) →
+  insert_registers_api A C s order = Ok C' →
+  outputs (c_g C') = outputs (c_g C) ∧ inputs (c_g C) ⊆ inputs (c_g C') ∧
+  inputs (c_g C') ⊆ inputs (c_g C) ∪ list_to_set (fst <$> ra_other A) ∧
+  (∀ v', consistent (c_g C') v' → transparent_gen (ra_d A) (ra_q A) C' v' → consistent (c_g C) v') ∧
+  (∀ v, consistent (c_g C) v → ∃ v', consistent (c_g C') v' ∧ transparent_gen (ra_d A) (ra_q A) C' v' ∧ agrees (dom (c_g C)) v' v).
+Proof. intros A C s order C' H1 H2 H3 H4 H5. destruct (insert_registers_api_spec A C s order C' H1 H2 H3 H4 H5) as (_ & _ & ?). done. Qed.
+Print Assumptions C05_insert_registers_any_args.
 
 (* termination / non-rejection: for EVERY well-formed circuit (networkx invariant, lint-clean, names that `add` accepts,
    no edge out of a bb_input -- `connect` never makes one) and every k >= 2 the validators accept SOME step list, i.e.
